@@ -1315,6 +1315,7 @@ def normalize(repo: Repo, ci: Optional[ClassInfo], fn: ast.FunctionDef, sf: Opti
                                                                   or (isinstance(n.value, ast.Call) and norm(n.value.func) == "divmod")))
             or (isinstance(n.targets[0], (ast.Tuple, ast.List)) and isinstance(n.value, ast.Call) and isinstance(n.value.func, ast.Attribute)
                 and n.value.func.attr in ("partition", "rpartition"))
+            or (isinstance(n.targets[0], (ast.Tuple, ast.List)) and isinstance(n.value, ast.Name))
             or (isinstance(n.targets[0], ast.Name) and isinstance(n.value, ast.Tuple))) for n in ast.walk(out)):
         out = split_tuple_assigns(out)
     if any(isinstance(n, ast.Attribute) and n.attr in ("pack", "unpack", "unpack_from", "size") for n in ast.walk(out)) or \
@@ -1749,6 +1750,13 @@ def split_tuple_assigns(fn: ast.FunctionDef) -> ast.FunctionDef:
                             setattr(a, k, val)
                     out.append(a)
                 return out
+            # p, q = pair   with `pair` a once-bound tuple display that is only indexed / unpacked:   p = pair__0; q = pair__1
+            if len(node.targets) == 1 and isinstance(node.targets[0], (ast.Tuple, ast.List)) and isinstance(node.value, ast.Name) \
+                    and node.value.id in indexed_only and len(node.targets[0].elts) == tuple_arity.get(node.value.id):
+                out = []
+                for i, t in enumerate(node.targets[0].elts):
+                    out.append(ast.copy_location(ast.Assign(targets=[t], value=ast.Name(id=f"{node.value.id}__{i}", ctx=ast.Load())), node))
+                return out
             # head, _, _ = data.partition(sep)   reads as   head = data.partition(sep)[0]   (names that are never read are dropped)
             if len(node.targets) == 1 and isinstance(node.targets[0], (ast.Tuple, ast.List)) and len(node.targets[0].elts) == 3 \
                     and isinstance(node.value, ast.Call) and isinstance(node.value.func, ast.Attribute) and node.value.func.attr in ("partition", "rpartition") \
@@ -1788,6 +1796,35 @@ def split_tuple_assigns(fn: ast.FunctionDef) -> ast.FunctionDef:
         def visit_Lambda(self, node):
             return node
     new = copy.deepcopy(fn)
+    # plain copies of once-bound locals (`ret = indexes`, both bound once) are read through first
+    for _ in range(3):
+        st0: Dict[str, int] = {}
+        for n in ast.walk(new):
+            if isinstance(n, ast.Name) and isinstance(n.ctx, (ast.Store, ast.Del)):
+                st0[n.id] = st0.get(n.id, 0) + 1
+        pset = {a.arg for a in new.args.args + new.args.kwonlyargs}
+        copies = {n.targets[0].id: n.value.id for n in ast.walk(new) if isinstance(n, ast.Assign) and len(n.targets) == 1
+                  and isinstance(n.targets[0], ast.Name) and isinstance(n.value, ast.Name) and st0.get(n.targets[0].id) == 1
+                  and st0.get(n.value.id) == 1 and n.value.id not in pset and n.targets[0].id != n.value.id}
+        copies = {k: v for k, v in copies.items() if v not in copies}
+        if not copies:
+            break
+
+        class CP(ast.NodeTransformer):
+            def visit_Assign(self, node):
+                if len(node.targets) == 1 and isinstance(node.targets[0], ast.Name) and node.targets[0].id in copies and isinstance(node.value, ast.Name):
+                    return None
+                return self.generic_visit(node)
+
+            def visit_Name(self, node):
+                if isinstance(node.ctx, ast.Load) and node.id in copies:
+                    return ast.copy_location(ast.Name(id=copies[node.id], ctx=ast.Load()), node)
+                return node
+        new = CP().visit(new)
+        for n in ast.walk(new):
+            for fld in ("body", "orelse", "finalbody"):
+                if isinstance(getattr(n, fld, None), list) and fld == "body" and not getattr(n, fld) and not isinstance(n, ast.Module):
+                    n.body = [ast.Pass()]
     # once-bound locals holding a tuple display that are read only through constant subscripts: name -> highest index
     stores: Dict[str, int] = {}
     for n in ast.walk(new):
@@ -1800,8 +1837,17 @@ def split_tuple_assigns(fn: ast.FunctionDef) -> ast.FunctionDef:
     for n in ast.walk(new):
         if isinstance(n, ast.Subscript) and id(n.value) in subscripted:
             sub_loads.setdefault(n.value.id, []).append(n.slice.value)
+    # whole-tuple unpacking `p, q = pair` counts as indexed use
+    unpacked_ids = set()
+    tuple_arity: Dict[str, int] = {n.targets[0].id: len(n.value.elts) for n in ast.walk(new) if isinstance(n, ast.Assign) and len(n.targets) == 1
+                                   and isinstance(n.targets[0], ast.Name) and isinstance(n.value, ast.Tuple)}
     for n in ast.walk(new):
-        if isinstance(n, ast.Name) and isinstance(n.ctx, ast.Load) and id(n) not in subscripted:
+        if isinstance(n, ast.Assign) and len(n.targets) == 1 and isinstance(n.targets[0], (ast.Tuple, ast.List)) and isinstance(n.value, ast.Name) \
+                and tuple_arity.get(n.value.id) == len(n.targets[0].elts):
+            unpacked_ids.add(id(n.value))
+            sub_loads.setdefault(n.value.id, []).append(len(n.targets[0].elts) - 1)
+    for n in ast.walk(new):
+        if isinstance(n, ast.Name) and isinstance(n.ctx, ast.Load) and id(n) not in subscripted and id(n) not in unpacked_ids:
             plain_loads.add(n.id)
     tuple_defs = {n.targets[0].id for n in ast.walk(new) if isinstance(n, ast.Assign) and len(n.targets) == 1 and isinstance(n.targets[0], ast.Name)
                   and isinstance(n.value, ast.Tuple)}
